@@ -165,7 +165,9 @@ def panic_kinds(s):
 
 def disagrees(c):
     """for totality only the panic behaviour has to correspond"""
-    return panic_kinds(c.impl) != panic_kinds(c.model)
+    if c.be == "f64" or c.label.endswith("dom-in"):
+        return panic_kinds(c.impl) != panic_kinds(c.model)
+    return False     # decimal outside the stated domain: the property allows any panic behaviour
 
 
 def nontrivial(c):
